@@ -5,10 +5,77 @@
   equalities below are re-checked against the current source.
 -/
 import KiraModel.Proofs.EffectsBProbe
+import KiraModel.Proofs.EffectsBEcho
 import KiraModel.Proofs.EffectsBReverb
 
 namespace K
 open LineFx
+
+variable {φ : Type}
+
+/-! ## Delay: echoes -/
+
+/-- **the line length is ⌊delay·fs⌋ frames** (delay time in nanoseconds `ns`, sample rate `sr`), for `init`
+    and for a sample-rate change, all zeros.  (Over ℝ.  In `f64` the product can round below a whole number
+    of frames: known finding `delay-length-float-floor`.) -/
+theorem C14_delay_line_length (C : FxChain ℝ φ) (d : Delay ℝ φ) (sr ibs : ℕ) :
+    (d.init C sr ibs).buffer = List.replicate ⌊(d.delayNs : ℝ) / 1000000000 * (sr : ℝ)⌋₊ Frame.zero
+      ∧ (d.changeRate C sr).buffer = List.replicate ⌊(d.delayNs : ℝ) / 1000000000 * (sr : ℝ)⌋₊ Frame.zero := by
+  simp [Delay.init, Delay.changeRate, Delay.frames, durToSecs_real]
+
+/-- **echoes at exact multiples of the delay time.**  A delay with a fresh line of `L ≥ 1` frames,
+    stagnant feedback (amplitude `a = 10^(dB/20)`) and mix, and memoryless feedback effects `g`
+    (the chain's output is `g` applied frame by frame, `g 0 = 0`; e.g. gains) is fed an impulse `x0` followed by `n` frames of silence.  Then it never faults,
+    and output frame `t` is the wet/dry blend of the input frame with the wet sample
+    `delayEcho t` = (`x0` passed `k` times through "`g`, then × `a`") if `t = k·L` with `k ≥ 1`, else zero:
+    echo `k` returns at frame `k·L`, attenuated once more by the feedback gain and shaped once more by the
+    feedback effects each time; nothing comes back in between. -/
+theorem C14_delay_echoes (C : FxChain ℝ φ) (g : Frame ℝ → Frame ℝ) (hg0 : g Frame.zero = Frame.zero)
+    (d : Delay ℝ φ) (dt : ℝ) (info : Info ℝ) (hgood : C.Good dt info)
+    (hC : ∀ s xs, (C.process s xs dt info).2 = xs.map g)
+    (hfb : d.feedback.stagnant = true) (hmx : d.mix.stagnant = true)
+    (L : ℕ) (hL : 1 ≤ L) (hbuf : d.buffer = List.replicate L Frame.zero)
+    (x0 : Frame ℝ) (n : ℕ) (ht : min L (n + 1) ≤ d.tempLen) :
+    ∃ d' out, d.process C (x0 :: List.replicate n Frame.zero) dt info = .ok (d', out)
+      ∧ ∀ t, t ≤ n → out[t]? = some
+          (blend (Delay.delayEcho (fun f => (g f).scale (asAmplitude d.feedback.raw)) x0 L t)
+                 (if t = 0 then x0 else Frame.zero) (clamp d.mix.raw 0 1)) := by
+  have hlen : d.buffer.length = L := by rw [hbuf]; simp
+  have hp := Delay.process_settled C d (x0 :: List.replicate n Frame.zero) dt info hgood hfb hmx
+    (by rw [hlen]; exact hL) (by rw [hlen]; simpa using ht)
+  refine ⟨_, _, hp, ?_⟩
+  intro t htn
+  have hh0 : (fun f => (g f).scale (asAmplitude d.feedback.raw)) (Frame.zero : Frame ℝ) = Frame.zero := by
+    simp only [hg0, Frame.zero_scale]
+  obtain ⟨L', rfl⟩ : ∃ L', L = L' + 1 := ⟨L - 1, by omega⟩
+  have hw := Delay.lineRun_impulse (fun f => (g f).scale (asAmplitude d.feedback.raw)) hh0 L' n x0 t htn
+  simp only [Delay.perFrame, hbuf]
+  rw [(Delay.framesC_memoryless C g _ _ dt info hC _ _ d.fx (by simp)).2]
+  simp only [List.getElem?_zipWith, hw]
+  cases t with
+  | zero => simp
+  | succ t =>
+    have : (List.replicate n (Frame.zero : Frame ℝ))[t]? = some Frame.zero := by
+      simp [List.getElem?_replicate]; omega
+    simp [this]
+
+/-- with no feedback effects (or pure gains `G`) echo `k` is the impulse scaled by `(G·a)ᵏ` -/
+theorem C14_delay_echo_amplitude (G a : ℝ) (x0 : Frame ℝ) (k : ℕ) :
+    (fun f : Frame ℝ => (f.scale G).scale a)^[k] x0 = x0.scale ((G * a) ^ k) := by
+  induction k generalizing x0 with
+  | zero => simp [Frame.scale_one]
+  | succ k ih =>
+    rw [Function.iterate_succ_apply, ih, Frame.scale_scale, Frame.scale_scale, pow_succ]
+    congr 1; ring
+
+/-- non-vacuity: the suite's gain-only probe effect (offset 0, feedback 0) is such a chain: good, and its
+    output is the input scaled by the gain frame by frame -/
+example (G : ℝ) (dt : ℝ) (info : Info ℝ) (prev : Frame ℝ) (xs : List (Frame ℝ)) :
+    (ProbeFx.chain : FxChain ℝ _).Good dt info
+      ∧ ((ProbeFx.chain : FxChain ℝ _).process [⟨G, 0, 0, prev⟩] xs dt info).2 = xs.map (fun f => f.scale G) :=
+  ⟨ProbeFx.chain_good dt info, by
+    simpa [ProbeFx.chain, ProbeFx.chainProcess] using
+      ProbeFx.process_gain_only (⟨G, 0, 0, prev⟩ : ProbeFx ℝ) rfl rfl xs⟩
 
 /-! ## Reverb: the Freeverb network -/
 
